@@ -1,5 +1,5 @@
 // C14 / C13 correspondence harness: the real tapkee::embed on generated requests, with counting callbacks.
-// in : front N=10 cbs=kd stop=1 kw=method:meth:Isomap,num_neighbors:int:3,landmark_ratio:real:3/10
+// in : front N=10 [D=10] cbs=kd stop=1 kw=method:meth:Isomap,num_neighbors:int:3,landmark_ratio:real:3/10
 //        [via=chain:dk]   the request goes through tapkee::with(kw).withDistance(..).withKernel(..).embedRange(..)
 //                         (attachment order = the letters; must be a permutation of cbs) instead of tapkee::embed
 //        [throwcb=kd]     these (supplied) callbacks throw `undeclared` when invoked
@@ -201,7 +201,7 @@ int main()
             fflush(out);
             continue;
         }
-        const int D = 10;
+        const int D = f.count("D") ? std::stoi(f["D"]) : 10; // feature dimension (what features.dimension() reports)
         DenseMatrix X(D, N);
         unsigned s = 12345u;
         for (int j = 0; j < N; j++)
